@@ -828,3 +828,59 @@ def draw_tag(t):
     if t.at_low == n:
         return "alllow"
     return "mixed"
+
+
+# --------------------------------------------------------------------------- substitution (C04/C05/C12)
+
+def agrees(w, v):
+    """w carries the substituted data v at the substituted positions (C04)."""
+    if isinstance(v, dict):
+        if not isinstance(w, dict):
+            return False
+        for k in v:
+            if k not in w or not agrees(w[k], v[k]):
+                return False
+        return True
+    if isinstance(v, list):
+        if not isinstance(w, list) or len(w) != len(v):
+            return False
+        for i in range(len(v)):
+            if not agrees(w[i], v[i]):
+                return False
+        return True
+    if isinstance(v, float):
+        return isinstance(w, float) and (w == v or isclose_py(w, v))
+    return w == v
+
+
+class Opaque:
+    def __repr__(self):
+        return "<opaque>"
+
+
+ZOO_UNCONVERTIBLE = (Opaque(), (1, 2), {1}, frozenset([1]), Decimal("1.5"), Fraction(1, 3), bytearray(b"x"),
+                     UUID("6ba7b810-9dad-11d1-80b4-00c04fd430c8"), 1j, int)
+
+
+def keeps_unspecified(S, R, v):
+    """Dict keys absent from v keep their schema and optionality in R = S % v."""
+    if not isinstance(v, dict) or not isinstance(S, DictSchema) or S.props.keys is Nil:
+        return True
+    if len(S.props.keys) == 1 and ... in S.props.keys:
+        return True
+    for k, (sub, opt) in S.props.keys.items():
+        if k in v:
+            continue
+        if k not in R.props.keys:
+            return False
+        rsub, ropt = R.props.keys[k]
+        if ropt != opt or (rsub is not sub and rsub != sub):
+            return False
+    return True
+
+
+def mkdictlist(j, x, z):
+    """[x, z] if j == 0 else [z, x]  (places an unconvertible member before / after the window)."""
+    if j == 0:
+        return [x, z]
+    return [z, x]
